@@ -119,6 +119,15 @@ class Gen(object):
     def integers(self, low, high=None, size=None, **k):
         if size is not None:
             raise NotImplementedError
+        if high is None:
+            low, high = 0, low
+        try:
+            lo, hi = int(low), int(high)
+        except TypeError:
+            lo = hi = None
+        if lo is not None and hi - lo <= 64:
+            # a small range: the value is used as an index -> fork
+            return lo + self._index(hi - lo)
         return self._fresh('int', info=(low, high))
 
     def random(self, size=None):
